@@ -153,14 +153,88 @@ def run(ctx):
               lambda sub, mp: paired_removal_rule(sub, "R19.2", mp, [f for f in mp.all_functions if f.cls is not None]),
               "file deletion without entry removal")
     # validation failure leads to a re-download: the invalid branch must reach the miss construction
-    # the flag is whatever name guards the construction of the miss (`if not <flag>: ... CacheMiss(...)`)
-    miss_ifs = [n for n in own_walk(gm.node) if isinstance(n, ast.If) and isinstance(n.test, ast.UnaryOp) and isinstance(n.test.op, ast.Not)
-                and isinstance(n.test.operand, ast.Name) and any(isinstance(c, ast.Call) and call_name(c) == "CacheMiss"
-                                                                 for b in n.body for c in ast.walk(b))]
-    flag = miss_ifs[0].test.operand.id if len(miss_ifs) == 1 else None
-    val_ifs = [n for n in own_walk(gm.node) if isinstance(n, ast.If) and flag is not None and ast.unparse(n.test) == "not " + flag]
-    ctx.expect(len(val_ifs) >= 2, "R19.2", "get_cache_misses[rejected entry is re-fetched]",
-               "an entry rejected by validation is both dropped and scheduled for download", gm.loc())
+    # path-sensitive walk of the per-URI loop body for the scenario "entry present, validate directive given, validator rejects":
+    # every such path must both drop the entry (with its file) and construct the miss that re-downloads it
+    def rejected_paths(stmts, env, events):
+        """all (env, events) reachable at the end of stmts; env maps local names to True/False (known truth) """
+        states = [(dict(env), list(events))]
+        for st in stmts:
+            nxt = []
+            for e, ev_ in states:
+                nxt += step(st, e, ev_)
+            states = nxt
+        return states
+
+    def truth(test, env):
+        if isinstance(test, ast.Name):
+            return env.get(test.id)
+        if isinstance(test, ast.UnaryOp) and isinstance(test.op, ast.Not):
+            v = truth(test.operand, env)
+            return None if v is None else (not v)
+        txt = ast.unparse(test)
+        if "_is_in_cache" in txt and not txt.startswith("not "):
+            return True
+        if isinstance(test, ast.Compare) and len(test.ops) == 1 and isinstance(test.ops[0], ast.In) \
+                and isinstance(test.left, ast.Constant) and test.left.value == "validate":
+            return True
+        return None
+
+    def value_truth(v, env):
+        if isinstance(v, ast.Constant) and isinstance(v.value, bool):
+            return v.value
+        if isinstance(v, ast.Name):
+            return env.get(v.id)
+        if isinstance(v, ast.Call) and isinstance(v.func, ast.Name) and v.func.id == "bool" and v.args:
+            return value_truth(v.args[0], env)
+        if isinstance(v, ast.Call) and isinstance(v.func, ast.Name) and env.get("@validator") == v.func.id:
+            return False            # the scenario: the validator rejects
+        return None
+
+    def step(st, env, events):
+        for c in [n for n in ast.walk(st) if isinstance(n, ast.Call)] if not isinstance(st, (ast.If, ast.Try, ast.For, ast.While)) else []:
+            nm = call_name(c)
+            if nm.endswith("_remove_item_from_cache"):
+                events = events + ["remove"]
+            if nm == "CacheMiss":
+                events = events + ["miss"]
+        if isinstance(st, (ast.Assign, ast.AnnAssign)) and getattr(st, "value", None) is not None:
+            tg = st.targets[0] if isinstance(st, ast.Assign) else st.target
+            if isinstance(tg, ast.Name):
+                env = dict(env)
+                v = st.value
+                if isinstance(v, ast.Subscript) and "validate" in ast.unparse(v):
+                    env["@validator"] = tg.id          # the looked-up validation function
+                tv = value_truth(v, env)
+                if tv is None:
+                    env.pop(tg.id, None)
+                else:
+                    env[tg.id] = tv
+            return [(env, events)]
+        if isinstance(st, ast.If):
+            tv = truth(st.test, env)
+            out = []
+            if tv is not False:
+                out += rejected_paths(st.body, env, events)
+            if tv is not True:
+                out += rejected_paths(st.orelse, env, events)
+            return out
+        if isinstance(st, ast.Try):
+            return rejected_paths(st.body + st.orelse + st.finalbody, env, events)
+        if isinstance(st, (ast.Continue, ast.Break, ast.Return)):
+            return [(env, events + ["exit"])]
+        return [(env, events)]
+
+    loops_gm = [n for n in own_walk(gm.node) if isinstance(n, ast.For) and any(
+        isinstance(c, ast.Call) and call_name(c) == "CacheMiss" for c in ast.walk(n))]
+    okrej = False
+    detail = ""
+    if len(loops_gm) == 1:
+        finals = rejected_paths(loops_gm[0].body, {}, [])
+        okrej = bool(finals) and all("remove" in ev_ and "miss" in ev_ for _, ev_ in finals)
+        detail = "; ".join(sorted({"+".join(ev_) or "nothing" for _, ev_ in finals}))
+    ctx.expect(okrej, "R19.2", "get_cache_misses[rejected entry is re-fetched]",
+               "on every path on which the validator rejects a present entry, the entry (and its file) is dropped and a miss is "
+               "scheduled for download", gm.loc(), derived=detail)
 
     # ---- R19.4 every directive of a request is honoured, and a failure is attributed to its own URI
     from .fc import loop_locals_used_after
